@@ -88,6 +88,8 @@ func FullAlphabet(c *Cast) func(w *World) []Event {
 		depVal2 := DepositValue(c.Payer.Acc.String(), new(big.Int).Mul(big.NewInt(6_000_000), big.NewInt(1e12)), new(big.Int).Mul(big.NewInt(1_000), big.NewInt(1e12)))
 		add("Submit(R2,dep1,valid2)", "submit-dep/valid2", func(w *World) sdk.Msg { return MsgSubmit(c.R2.Acc, c.Dep1, depVal2) })
 		add("Submit(R1,wd1,std)", "submit-wd", func(w *World) sdk.Msg { return MsgSubmit(c.R1.Acc, c.Wd1, U256(1)) })
+		// a value of the shape the bridge itself publishes for withdrawals (address, string, amount, tip)
+		add("Submit(R1,wd1,wellformed)", "submit-wd/wellformed", func(w *World) sdk.Msg { return MsgSubmit(c.R1.Acc, c.Wd1, depVal) })
 		add("Submit(S1,cyc,std)", "submit/selector", func(w *World) sdk.Msg {
 			if q := cyc(w); q != nil {
 				return MsgSubmit(c.S1.Acc, q, U256(1))
@@ -180,6 +182,11 @@ func FullAlphabet(c *Cast) func(w *World) []Event {
 				return []sdk.Msg{MsgDelegate(c.Payer.Acc, V[0], 5*TRB), MsgCreateReporter(c.Payer.Acc, cm, TRB)}
 			})
 		}
+		addN("Delegate+CreateReporter(Payer,min=5TRB)", "createreporter/highmin", func(w *World) []sdk.Msg {
+			return []sdk.Msg{MsgDelegate(c.Payer.Acc, V[0], 5*TRB), MsgCreateReporter(c.Payer.Acc, "0.1", 5*TRB)}
+		})
+		add("Delegate(Tipper,V1,2)", "delegate/small", func(w *World) sdk.Msg { return MsgDelegate(c.Tipper.Acc, V[0], 2*TRB) })
+		add("Select(Tipper->Payer)", "select/below-reporter-min", func(w *World) sdk.Msg { return MsgSelect(c.Tipper.Acc, c.Payer.Acc) })
 		add("CreateReporter(Payer,nostake)", "createreporter/nostake", func(w *World) sdk.Msg { return MsgCreateReporter(c.Payer.Acc, "0.1", TRB) })
 		add("CreateReporter(S1,already)", "createreporter/already", func(w *World) sdk.Msg { return MsgCreateReporter(c.S1.Acc, "0.1", TRB) })
 		addN("Delegate+Select(Payer->R1)", "select/new", func(w *World) []sdk.Msg {
@@ -205,6 +212,7 @@ func FullAlphabet(c *Cast) func(w *World) []Event {
 			u := u
 			add("WithdrawTip("+u.n+",V1)", "withdrawtip", func(w *World) sdk.Msg { return MsgWithdrawTip(u.u.Acc, V[0]) })
 		}
+		add("WithdrawTip(R2,V2)", "withdrawtip", func(w *World) sdk.Msg { return MsgWithdrawTip(c.R2.Acc, V[1]) })
 		add("WithdrawTip(R1,V3)", "withdrawtip", func(w *World) sdk.Msg { return MsgWithdrawTip(c.R1.Acc, V[len(V)-1]) })
 		add("ReporterParams(gov,maxsel=1)", "reporterparams/maxsel1", func(w *World) sdk.Msg { return MsgReporterParams(w.Gov, TRB, 1) })
 		add("ReporterParams(gov,maxsel=0,mintrb=0)", "reporterparams/zero", func(w *World) sdk.Msg { return MsgReporterParams(w.Gov, 0, 0) })
@@ -289,6 +297,13 @@ func FullAlphabet(c *Cast) func(w *World) []Event {
 				return nil
 			}
 			return MsgPropose(c.Payer.Acc, *r, disputetypes.Warning, feeOf(r, disputetypes.Warning)/2, false)
+		})
+		add("Propose(Payer,R1rep,warning,full+1)", "propose/warning-over", func(w *World) sdk.Msg {
+			r := firstReportBy(w, c.R1.Acc)
+			if r == nil {
+				return nil
+			}
+			return MsgPropose(c.Payer.Acc, *r, disputetypes.Warning, feeOf(r, disputetypes.Warning)+1, false)
 		})
 		add("Propose(Payer,R1rep,warning,full-1)", "propose/warning-almost", func(w *World) sdk.Msg {
 			r := firstReportBy(w, c.R1.Acc)
@@ -559,5 +574,18 @@ func EnvEvents(w0 *World) []Event {
 			return Outcome{Kind: "env"}
 		}})
 	}
+	// downtime as x/slashing handles it: the validator is jailed and starts unbonding at the end of the block
+	v2 := w0.Vals[1]
+	evs = append(evs, Event{Label: "Jail(" + v2.Name + ")", Tag: "env/jail", Apply: func(w *World) Outcome {
+		sv, err := w.App.StakingKeeper.GetValidator(w.Ctx, v2.Val)
+		if err != nil || !sv.IsBonded() || sv.Jailed {
+			return Outcome{Kind: "tx-rej", Err: "not bonded"}
+		}
+		ca, _ := sv.GetConsAddr()
+		if err := w.App.StakingKeeper.Jail(w.Ctx, ca); err != nil {
+			return Outcome{Kind: "tx-rej", Err: err.Error()}
+		}
+		return Outcome{Kind: "env"}
+	}})
 	return evs
 }
